@@ -50,6 +50,7 @@ pub enum CodecCase {
     Sparse { dense: Vec<u32> },
     SparseParts { dim: u16, entries: Vec<(u16, u32)> },
     Ints { runs: Vec<(i64, u16)> },
+    SnapHeader { bag: Bag, n: u8, compressed: bool },
 }
 
 pub fn codec_strategy(_t: Tier) -> BoxedStrategy<CodecCase> {
@@ -60,14 +61,16 @@ pub fn codec_strategy(_t: Tier) -> BoxedStrategy<CodecCase> {
         1 => proptest::collection::vec(strat::f32_bits(), 0..20),
     ];
     prop_oneof![
-        3 => proptest::collection::vec(strat::u64_any(), 0..24).prop_map(|values| CodecCase::Varint { values }),
-        4 => (strat::u64_any(), strat::id_steps()).prop_map(|(start, steps)| CodecCase::Ids { start, steps }),
-        2 => proptest::collection::vec((ival.clone(), run_len.clone()), 0..10).prop_map(|runs| CodecCase::RleI64 { runs }),
-        1 => proptest::collection::vec((any::<u8>(), run_len.clone()), 0..10).prop_map(|runs| CodecCase::RleU8 { runs }),
-        3 => dense.prop_map(|dense| CodecCase::Sparse { dense }),
-        2 => (1u16..3000, proptest::collection::vec((any::<u16>(), strat::f32_bits()), 0..12))
+        9 => proptest::collection::vec(strat::u64_any(), 0..24).prop_map(|values| CodecCase::Varint { values }),
+        12 => (strat::u64_any(), strat::id_steps()).prop_map(|(start, steps)| CodecCase::Ids { start, steps }),
+        6 => proptest::collection::vec((ival.clone(), run_len.clone()), 0..10).prop_map(|runs| CodecCase::RleI64 { runs }),
+        3 => proptest::collection::vec((any::<u8>(), run_len.clone()), 0..10).prop_map(|runs| CodecCase::RleU8 { runs }),
+        9 => dense.prop_map(|dense| CodecCase::Sparse { dense }),
+        6 => (1u16..3000, proptest::collection::vec((any::<u16>(), strat::f32_bits()), 0..12))
             .prop_map(|(dim, entries)| CodecCase::SparseParts { dim, entries }),
-        1 => proptest::collection::vec((ival, run_len), 0..10).prop_map(|runs| CodecCase::Ints { runs }),
+        3 => proptest::collection::vec((ival, run_len), 0..10).prop_map(|runs| CodecCase::Ints { runs }),
+        // (a router per case: expensive, kept rare)
+        1 => (strat::bag(), 0u8..6, any::<bool>()).prop_map(|(bag, n, compressed)| CodecCase::SnapHeader { bag, n, compressed }),
     ]
     .boxed()
 }
@@ -283,8 +286,75 @@ pub fn codec_check(c: &CodecCase, ctx: &mut CaseCtx) -> Result<(), Fail> {
                 ctx.set_nontrivial();
             }
         },
+        CodecCase::SnapHeader { bag, n, compressed } => {
+            ctx.label("snapshot-header");
+            let (bytes, want) = snapv3_bytes(bag, *n, *compressed);
+            match oracle::snap_header(&bytes) {
+                Some((magic, version, flags, count)) => {
+                    if !magic || version != 3 || flags != u32::from(*compressed) {
+                        ctx.fail(
+                            "snapshot-header:layout",
+                            format!("magic ok {magic}, version {version}, flags {flags:#x} (compressed {compressed}): first 20 bytes {:?}", &bytes[..20]),
+                        )?;
+                    }
+                    // "total entry count": at least the keys stored, never more than keys + index entries
+                    if count < u64::from(*n) || count > 2 * u64::from(*n) {
+                        ctx.fail("snapshot-header:entry-count", format!("{n} keys stored, header says {count}"))?;
+                    }
+                },
+                None => ctx.fail("snapshot-header:short-file", format!("{} bytes", bytes.len()))?,
+            }
+            // the header type itself
+            use tensor_store::SnapshotHeader;
+            let h = if *compressed { SnapshotHeader::new_compressed(u64::from(*n)) } else { SnapshotHeader::new(u64::from(*n)) };
+            if h.validate().is_err() || h.is_compressed() != *compressed || h.entry_count != u64::from(*n) {
+                ctx.fail("snapshot-header:constructor", format!("{h:?}"))?;
+            }
+            let hb = bitcode::serialize(&h).map_err(|e| Fail::new("snapshot-header:serialize", e.to_string()))?;
+            match bitcode::deserialize::<SnapshotHeader>(&hb) {
+                Ok(h2) => {
+                    if canon(&h) != canon(&h2) {
+                        ctx.fail("snapshot-header:image-roundtrip", format!("{h:?} vs {h2:?}"))?;
+                    }
+                },
+                Err(e) => ctx.fail("snapshot-header:image-rejected", e.to_string())?,
+            }
+            // and the file reads back to the same content
+            let f = oracle::TmpFile::with_bytes("hdr", &bytes);
+            match tensor_store::snapshot::load(&f.0) {
+                Ok(r) => {
+                    let mut keys = r.scan("");
+                    keys.sort();
+                    let got: Vec<(String, nv_c20::canon::Canon)> = keys.into_iter().map(|k| { let t = r.get(&k).map(|t| canon(&t)).unwrap_or(nv_c20::canon::Canon::None); (k, t) }).collect();
+                    if got != want {
+                        ctx.fail("snapshot-file:roundtrip", format!("{} keys saved, {} loaded or values differ", want.len(), got.len()))?;
+                    }
+                },
+                Err(e) => ctx.fail("snapshot-file:rejected", e.to_string())?,
+            }
+            let mut obs = Obs::default();
+            lift(oracle::snapv3(&bytes, &mut obs), ctx)?;
+        },
     }
     Ok(())
+}
+
+/// A default-format snapshot file of `n` generated entries, and the content it holds.
+pub fn snapv3_bytes(bag: &Bag, n: u8, compressed: bool) -> (Vec<u8>, Vec<(String, nv_c20::canon::Canon)>) {
+    let router = tensor_store::SlabRouter::new();
+    let mut cur = Cur::new(bag);
+    let mut want = Vec::new();
+    for i in 0..n {
+        let key = format!("k{i}");
+        let t = build::tensor_data(&mut cur);
+        want.push((key.clone(), canon(&t)));
+        let _ = router.put(&key, t);
+    }
+    want.sort();
+    let f = oracle::TmpFile::new("snapv3w");
+    let r = if compressed { tensor_store::snapshot::save_v3(&router, &f.0) } else { tensor_store::snapshot::save_v3_uncompressed(&router, &f.0) };
+    let bytes = if r.is_ok() { std::fs::read(&f.0).unwrap_or_default() } else { Vec::new() };
+    (bytes, want)
 }
 
 // ---------------------------------------------------------------------------------------------
